@@ -49,6 +49,14 @@ TIME    `server patience`: handlers are held by the harness across a plain Shutd
         Trace_Server with DeadlinesMayFire = TRUE (Trace_Server_<mode>_time.cfg).  A Shutdown() that comes back
         before the drain, or with a context error nobody asked for, has no step.  Load only makes the harness wait
         longer.  Not covered: a bound that is a literal larger than 9.5 s.
+        WRITE deadlines are part of the same environment: Server.tla carries wdl[c] / pcWDL ("none" | "future" |
+        "past"), TFireW(c) / TFireWPC let a write deadline in the future come, and WReply / KReply lose the reply
+        when it has (replyLost -> RepliesDelivered).  The real server never arms one; the fake transports honour
+        SetWriteDeadline / SetDeadline like the net package (a Write after the deadline fails with a timeout and
+        nothing goes out: event conn.write / pc.write "timeout"), and Trace_Server's clause for the write
+        ((res = "ok") = connection open, write deadline not past, client there) has no step for it.  The held handlers
+        answer 12 x WriteTimeout (configured) / 9.5 s (defaults: 2 s) after Shutdown() began, so any write deadline the
+        shutdown path derives from WriteTimeout / the library's default has come by then -- whatever the load.
 
 A VIOLATION is only: Trace_Server rejecting an observed trace (server/trace-reject:<event>), a property violated on
 every explanation of an observed trace (server/trace-inv:<property>), a projection mismatch at quiescence
@@ -77,6 +85,10 @@ Mutants (checks/mutants/C13/*.diff; `cp -r /repo /tmp/x && git -C /tmp/x apply <
                                   closed under the held handlers) | server/trace-reject:shutdown.returned:ctx (udp), variant configured after
                                   ~0.1 s, variant defaults after 8 s; model: Bug="plain_gives_up" fails PlainShutdownWaits on MC_Server_time(_pc)
   shutdown-bounded-by-read-timeout (Shutdown() waits 2 x getReadTimeout())   TIME, the same keys (defaults: after 4 s)
+  seeded C13-20 = shutdown-arms-write-deadline (ShutdownContext's walk over srv.conns also sets a write deadline of now + WriteTimeout)
+                                  TIME server/trace-reject:conn.write:timeout (tcp, configured after ~0.1 s, defaults after 2 s: the
+                                  held handler's reply fails with "i/o timeout" although the connection is open and the client there);
+                                  model: Bug="sh_write_deadline" fails RepliesDelivered on MC_Server_time(_pc)
   plain-unlock [t]                server/crash:fatal-error-sync-Unlock-of-unlocked-RWMutex (every stage that starts a server)
   wgadd-after-go                  NOT caught: nothing observable separates `go` from `wg.Add` (no hook can sit between the
                                   two statements without rewriting them); only a negative-counter panic by scheduling luck
@@ -114,8 +126,10 @@ BROKEN = [
     ("hijack", "hijack_keeps_conn", "INVARIANT", "NothingLeft"),
     ("time", "plain_gives_up", "INVARIANT", "PlainShutdownWaits"),
     ("time_pc", "plain_gives_up", "INVARIANT", "PlainShutdownWaits"),
+    ("time", "sh_write_deadline", "INVARIANT", "RepliesDelivered"),
+    ("time_pc", "sh_write_deadline", "INVARIANT", "RepliesDelivered"),
 ]
-BROKEN_THOROUGH_ONLY = {("time_pc", "plain_gives_up")}
+BROKEN_THOROUGH_ONLY = {("time_pc", "plain_gives_up"), ("time_pc", "sh_write_deadline")}
 
 RESTART_QUICK = [("restart", "INVARIANT", "GracefulReturn"), ("restart", "INVARIANT", "ServeReturnsNil"),
                  ("restart", "INVARIANT", "NoCrash"), ("restart_live", "PROPERTY", "ShutdownTerminates")]
@@ -529,6 +543,10 @@ def gen_replay(ctx, binp, racebin):
 
 # ---------------------------------------------------------------------- entry points
 
+import itertools
+_confirm_no = itertools.count()
+
+
 def confirm_with(ctx, binp):
     def confirm(c):
         case = c["case"]
@@ -541,7 +559,7 @@ def confirm_with(ctx, binp):
         if "plan" in case and "mode" in case and "report" not in case:   # projection mismatch: force the same plan again, twice
             again = 0
             for k in range(2):
-                sub = _sub(ctx, "confirm%d" % k)
+                sub = _sub(ctx, "confirm%d-%d" % (next(_confirm_no), k))     # a directory of its own per candidate and attempt
                 s = replay_plans(sub, binp, case["mode"], [case["plan"]], "confirm", timeout=180)
                 if any(x["key"] == c["key"] for x in sub.cands):
                     again += 1
@@ -584,7 +602,9 @@ def run(ctx):
     ctx.assumptions += [
         "DEV1: read deadlines in the future (ReadTimeout / IdleTimeout, one hour in the harness) do not fire during a run, except in the "
         "`patience` runs (short / default timeouts), which are judged with DeadlinesMayFire = TRUE",
-        "TIME: a bound on Shutdown()'s wait is seen when it is derived from a configured timeout or is at most 9.5 s",
+        "TIME: a bound on Shutdown()'s wait is seen when it is derived from a configured timeout or is at most 9.5 s; a write deadline "
+        "armed on a tracked connection / the packet conn is seen when it has come by the time the held handlers answer (12 x the configured "
+        "timeouts / 9.5 s after Shutdown() began); on the real UDP socket a failed reply write is not judged (Loose)",
         "DEV2: MaxTCPQueries, Hijack, MsgAcceptFunc reject/ignore, short packets, DecorateReader/Writer, TLS handshakes are not modelled "
         "(a TLS listener is a net.Listener to server.go)",
         "DEV3: srv.Listener is only re-assigned by the caller while the server is not started and no call is in its critical section",
